@@ -125,7 +125,62 @@ theorem c01_split_slot (k : Nat) (f : List Nat → List β) (dfl : β) (nl : β 
   · exact (Classical.choose_spec (hall j)).2.1
   · exact (Classical.choose_spec (hall j)).2.2
 
+/-- no duplicate ⇔ `Nodup` -/
+theorem firstDup_none_iff (l : List Nat) : firstDup l = none ↔ l.Nodup := by
+  induction l with
+  | nil => simp [firstDup]
+  | cons x xs ih =>
+    simp only [firstDup, List.nodup_cons]
+    by_cases h : xs.contains x = true
+    · simp only [h, if_true]
+      constructor
+      · intro hh; cases hh
+      · intro ⟨hn, _⟩; exact absurd (by simpa using h) hn
+    · have hf : xs.contains x = false := by simpa using h
+      simp only [hf, Bool.false_eq_true, if_false, ih]
+      constructor
+      · intro hh; exact ⟨by simpa using h, hh⟩
+      · intro hh; exact hh.2
+
+/-- **spellings**: every spelling of one grid is normalised to the same list of (argument, values) pairs, and a grid
+with a repeated value for some argument is rejected by the parser — i.e. before the sweep (and hence any call of the
+function) starts; an accepted grid has pairwise distinct values per argument -/
+theorem c01_spelling (items : List (String × List Nat)) :
+    parseCombos (.dict items) = parseCombos (.pairs items) ∧
+    (∀ a vs, parseCombos (.single a vs) = parseCombos (.pairs [(a, vs)])) ∧
+    (∀ combos, parseCombos (.pairs items) = .ok combos → combos = items ∧ ∀ p ∈ items, p.2.Nodup) ∧
+    ((∃ p ∈ items, ¬ p.2.Nodup) → ∃ e, parseCombos (.pairs items) = .error e) := by
+  refine ⟨rfl, fun _ _ => rfl, ?_, ?_⟩
+  · intro combos h
+    simp only [parseCombos] at h
+    split at h
+    · cases h
+    · rename_i hnone
+      cases h
+      refine ⟨rfl, ?_⟩
+      intro p hp
+      rw [List.findSome?_eq_none_iff] at hnone
+      have := hnone p hp
+      rw [← firstDup_none_iff]
+      cases hd : firstDup p.2 with
+      | none => rfl
+      | some v => simp [hd] at this
+  · rintro ⟨p, hp, hdup⟩
+    simp only [parseCombos]
+    split
+    · rename_i a v _; exact ⟨_, rfl⟩
+    · rename_i hnone
+      rw [List.findSome?_eq_none_iff] at hnone
+      have := hnone p hp
+      have hd : firstDup p.2 = none := by
+        cases hd : firstDup p.2 with
+        | none => rfl
+        | some v => simp [hd] at this
+      exact absurd ((firstDup_none_iff _).mp hd) hdup
+
 /-! Non-vacuity: a 2×3 grid run under a 3-cycle-containing shuffle. -/
+example : parseCombos (.dict [("a", [1, 2, 1])]) = .error (.duplicate "a" 1) := by rfl
+example : parseCombos (.single "a" [1, 2]) = .ok [("a", [1, 2])] := by rfl
 def exSweep : Sweep := { comboArgs := ["a", "b"], comboVals := [[0, 1], [0, 1, 2]] }
 example : exSweep.caseRows = none ∧ exSweep.overlap = false := by decide
 example : (Strategy.shuffled [4, 0, 3, 1, 5, 2]).WF exSweep.locs.length := by
